@@ -4,7 +4,7 @@
 WT=$1; SRC=$2; ID=$3
 OUT=/verif/seeded/$ID
 mkdir -p $OUT
-cp $SRC/patch.diff $SRC/demo.sh $OUT/ 2>/dev/null
+rsync -a --max-size=300k --exclude scratch --exclude "*.log" --exclude target $SRC/ $OUT/ 2>/dev/null
 cp $SRC/README.md $OUT/README.agent.md 2>/dev/null
 cd $WT || exit 2
 git checkout -q -- . 
